@@ -383,6 +383,15 @@ theorem enough_streams_sacrificed (pe nv : ℝ) (E : Mat ℂ N r) (hn : n ≤ N 
     ⟨Pf.filter_cov_noise_only pe nv E P M hP, fun hpe =>
       Pf.filter_kills_ext E P M ((Pf.noise_eigenspace_iff pe nv hpe E P).mp hP)⟩⟩
 
+/-- "enough" is exact: for `pe ≠ 0` a matrix with `n` orthonormal columns inside the noise eigenspace
+    exists IF AND ONLY IF `n ≤ N − rank E` — keeping more streams than that necessarily leaves
+    external interference at the filter output -/
+theorem enough_streams_iff (pe nv : ℝ) (hpe : pe ≠ 0) (E : Mat ℂ N r) :
+    (∃ P : Mat ℂ N n, matMul (cT P) P = eye ∧
+      matMul (covExtInt pe nv E) P = fun i j => Cx.ofReal nv * P i j) ↔ n ≤ N - (toM E).rank :=
+  ⟨fun ⟨P, h1, h2⟩ => Pf.room_of_reduction_in_noise_space pe nv hpe E P h1 h2,
+    fun h => let ⟨P, h1, _, h3⟩ := Pf.exists_reduction_in_noise_space pe nv E h; ⟨P, h1, h3⟩⟩
+
 /-- `least_singular_vectors_in_noise_space`: the contract hypothesis "the `n` smallest singular
     values of `Re_k` equal the noise variance" (`hS` of `reduction_in_noise_eigenspace`) and with it
     the noise-eigenspace contract `Re_k P = σ² P` of the matrix `P` computed by
